@@ -165,6 +165,15 @@ structure MVResult where
 def MV.result (s : MV) : MVResult :=
   ⟨s.vec, s.cols.map (·.count), s.cols.map (·.mean), s.cols.map (·.var), s.cols.map Col.total⟩
 
+/-! ## The one-shot function API (`ml_metrics/_src/metrics/rolling_stats.py`)
+
+`var(batch) = MeanAndVariance().add(batch).var`, and likewise `stddev`, `mean`, `count`, `total`.
+`CallableMetric.add` *returns the batch's own statistics* `new(batch)` (base.py:86–90), so the five
+functions read the fields of `new(batch)`, not of the accumulator. -/
+
+def FnApi.ofList (xs : List F) : MVResult := (MV.ofList xs).result
+def FnApi.ofRows (k : Nat) (rows : List (List F)) : MVResult := (MV.ofRows k rows).result
+
 /-! ## The well-typed families as `Mergeable` instances -/
 
 /-- 1-D input: examples are floats.  `MeanAndVariance` / `Var` (`Var.result` is the `var` field). -/
